@@ -13,7 +13,7 @@ import time
 import z3
 
 from . import spec as S
-from .spec import Opt, BoolV, RealV, SliceV, SeqV, TupV, MapV, StrV, NanV, ObjV, AbsV, SliceSeqV, SortedItemsV
+from .spec import Opt, BoolV, RealV, SliceV, SeqV, TupV, MapV, StrV, NanV, ObjV, AbsV, SliceSeqV, SortedItemsV, TupSeqV
 from .contract import Contract, REGISTRY, for_function
 
 
@@ -107,7 +107,7 @@ def unwrap(v):
 
 def wrap(v):
     """contract-level value back into an engine value."""
-    if isinstance(v, (Opt, BoolV, RealV, SliceV, SeqV, TupV, MapV, StrV, NanV, ObjV, AbsV, SliceSeqV, SortedItemsV)):
+    if isinstance(v, (Opt, BoolV, RealV, SliceV, SeqV, TupV, MapV, StrV, NanV, ObjV, AbsV, SliceSeqV, SortedItemsV, TupSeqV)):
         return v
     if v is None:
         return NONE
@@ -254,6 +254,18 @@ class Exec:
         if ty.startswith("map:"):
             self.nfresh += 1
             return MapV.fresh(f"{base}!{self.nfresh}", ty[4:])
+        if ty == "sliceseq" or ty.startswith("tupseq:"):
+            # the length is the length of an otherwise unused IntSeq constant, hence non-negative by the prelude
+            self.nfresh += 1
+            n = S.f_len(z3.Const(f"{base}.len!{self.nfresh}", S.SeqSort))
+            if ty == "sliceseq":
+                return SliceSeqV.fresh(f"{base}!{self.nfresh}", n)
+            comps = []
+            for i, t in enumerate(split_types(ty[7:])):
+                if t != "slice":
+                    raise Unsupported(f"tupseq component {t!r}")
+                comps.append(SliceSeqV.fresh(f"{base}.{i}!{self.nfresh}", n))
+            return TupSeqV(n, comps)
         if ty == "nan":
             return NanV()
         if ty == "str":
@@ -1032,7 +1044,8 @@ class Exec:
                     return None
                 vals.append(t.as_long())
             return [I(i) for i in range(*vals)]
-        if isinstance(it, (ast.Name, ast.Attribute, ast.Subscript, ast.Tuple, ast.List)):
+        is_map = isinstance(it, ast.Call) and isinstance(it.func, ast.Name) and it.func.id == "map" and "map" not in st.env
+        if is_map or isinstance(it, (ast.Name, ast.Attribute, ast.Subscript, ast.Tuple, ast.List)):
             try:
                 v = self.eval(it, st)
             except Unsupported:
@@ -1107,7 +1120,7 @@ class Exec:
             return {"n": S.f_len(v.t), "elem": lambda k, s: I(S.f_at(v.t, k))}
         if isinstance(v, SortedItemsV):
             return {"n": v.n, "elem": lambda k, s: TupV([I(S.f_at(v.keys, k)), v.m.get(S.f_at(v.keys, k))])}
-        if isinstance(v, SliceSeqV):
+        if isinstance(v, (SliceSeqV, TupSeqV)):
             return {"n": v.n, "elem": lambda k, s: v.get(k)}
         raise Unsupported(f"iteration over {ast.dump(it)[:80]} line {node.lineno}")
 
@@ -1237,6 +1250,8 @@ class Exec:
         raise Unsupported(f"truth of {v!r}")
 
     def eval_bool(self, node, st, static_only=False):
+        if self.havoc_map and isinstance(node, ast.BoolOp) and not static_only and ast.unparse(node) in self.havoc_map:
+            return self.truth(self.eval(node, st))  # declared abstraction of a whole condition
         if isinstance(node, ast.BoolOp):
             terms = []
             pushed = 0
@@ -1759,15 +1774,22 @@ class Exec:
             self.ctx.defs.append(z3.ForAll([jj], z3.Implies(rng_, z3.substitute(d, (j, jj)))), None)
         for f in s.pc[base_len:]:
             st.pc.append(z3.ForAll([jj], z3.Implies(rng_, z3.substitute(f, (j, jj)))))
-        if isinstance(elt, SliceV):
+        nlen = n  # every iter_symbolic length is a sequence length (non-negative by the prelude)
+
+        def sliceseq_of(sl):
             self.nfresh += 1
-            out = SliceSeqV.fresh(f"comp!{self.nfresh}", n)
-            comps = {"n0": S._b(elt.start.n), "v0": S._i(elt.start.v), "n1": S._b(elt.stop.n), "v1": S._i(elt.stop.v),
-                     "n2": S._b(elt.step.n), "v2": S._i(elt.step.v)}
+            out = SliceSeqV.fresh(f"comp!{self.nfresh}", nlen)
+            comps = {"n0": S._b(sl.start.n), "v0": S._i(sl.start.v), "n1": S._b(sl.stop.n), "v1": S._i(sl.stop.v),
+                     "n2": S._b(sl.step.n), "v2": S._i(sl.step.v)}
             for k, t in comps.items():
                 st.pc.append(z3.ForAll([jj], z3.Implies(rng_, z3.Select(out.a[k], jj) == z3.substitute(t, (j, jj))),
                                        patterns=[z3.Select(out.a[k], jj)]))
             return out
+
+        if isinstance(elt, SliceV):
+            return sliceseq_of(elt)
+        if isinstance(elt, TupV) and elt.items and all(isinstance(x, SliceV) for x in elt.items):
+            return TupSeqV(nlen, [sliceseq_of(x) for x in elt.items], "list" if kind == "list" else "tuple")
         out = self.fresh_value("seq" if kind == "tuple" else "lseq", "comp")
         e = S.as_int(self.need_int(elt, s, node))
         st.pc.append(S.f_len(out.t) == z3.If(n > 0, n, 0))
@@ -1842,6 +1864,16 @@ class Exec:
         for an in argnames:
             if an not in params:
                 raise Unsupported(f"call to {name} line {node.lineno}: default for {an} not supported")
+        # a parameter the callee contract does not declare was fixed to its default value when the callee was verified:
+        # the contract may only be used where the caller passes that same value
+        ndef = len(unit_fn.args.defaults)
+        defaults = dict(zip(argnames[len(argnames) - ndef:], unit_fn.args.defaults)) if ndef else {}
+        for an in argnames:
+            if an in c.params or an == "self":
+                continue
+            if an not in defaults or not _same_static(self.eval(defaults[an], st), params[an]):
+                raise Unsupported(f"call to {name} line {node.lineno}: contract {c.key} was verified for the default value of "
+                                  f"{an!r} only, the caller passes {params[an]!r}")
         pre = self.eval_requires(c, params)
         self.oblige(st, "call-pre", f"{c.name}", pre, node.lineno, note=f"precondition of {c.name} at call site")
         # normal return
@@ -1939,6 +1971,14 @@ class Exec:
                 continue
             if all(type_matches(t, a) for t, a in zip(tys, args)):
                 ok.append(c)
+        if len(ok) > 1 and kwargs:
+            # prefer the specialisations that declare every keyword the caller passes
+            full = [c for c in ok if all(k in c.params for k in kwargs)]
+            if full:
+                ok = full
+        if len(ok) > 1:
+            fewest = min(len(c.params) for c in ok)
+            ok = [c for c in ok if len(c.params) == fewest] if not kwargs else ok
         if len(ok) == 1:
             return ok[0]
         if not ok:
@@ -1955,6 +1995,23 @@ class Exec:
             self.assumed.add(f"{name}: {(ext[name].__doc__ or '').strip()}")
             return wrap_any(ext[name](self, st, args, kwargs, node))
         return B.call(self, node, name, st)
+
+
+def _same_static(a, b):
+    """two values are the same compile-time constant (None, an int/bool literal, a string literal)"""
+    if isinstance(a, Opt) and isinstance(b, Opt):
+        if a.n is True or b.n is True:
+            return a.n is True and b.n is True
+        if a.n is False and b.n is False:
+            x, y = z3.simplify(S._i(a.v)), z3.simplify(S._i(b.v))
+            return z3.is_int_value(x) and z3.is_int_value(y) and x.as_long() == y.as_long()
+        return False
+    if isinstance(a, BoolV) and isinstance(b, BoolV):
+        x, y = z3.simplify(a.t), z3.simplify(b.t)
+        return (z3.is_true(x) and z3.is_true(y)) or (z3.is_false(x) and z3.is_false(y))
+    if isinstance(a, StrV) and isinstance(b, StrV):
+        return a.s is not None and a.s == b.s
+    return False
 
 
 def _mod_operands(lname, a):
@@ -2121,6 +2178,10 @@ def type_matches(ty, v):
         return len(items) == len(v.items) and all(type_matches(t, x) for t, x in zip(items, v.items))
     if ty.startswith("obj:"):
         return isinstance(v, ObjV)
+    if ty == "sliceseq":
+        return isinstance(v, SliceSeqV)
+    if ty.startswith("tupseq:"):
+        return isinstance(v, TupSeqV) and len(v.comps) == len(split_types(ty[7:]))
     if ty == "const":
         return True
     return False
